@@ -131,3 +131,11 @@ Theorem C04_src_parfile_worker_error_reaches_exit : forall stats walk ws1 e ws2,
   x_main_collect stats (x_parfile_copy_result walk (ws1 ++ Some e :: ws2)) <> None.
 Proof. exact x_parfile_worker_error_reaches_exit. Qed.
 Print Assumptions C04_src_parfile_worker_error_reaches_exit.
+
+(* ---- the block job of parblock, translated: a failing kernel copy and a premature end of the source each send an Error
+   update (the job's only report), which the translated main() turns into a non-zero exit status ---- *)
+From Coq Require Import String.
+Theorem C04_src_block_job_reports_failure :
+  x_block_job_arms = [("Ok(0)ifoff+done>=harc.metadata.len()", 0); ("Ok(0)", 1); ("Ok(copied)", 2); ("Err(e)", 1)]%string%N.
+Proof. exact x_block_job_arms_ok. Qed.
+Print Assumptions C04_src_block_job_reports_failure.
